@@ -14,6 +14,7 @@ trace, and the canonical head / state change only in the atomic switch.
 """
 import json
 import random
+import re
 
 import vlib
 
@@ -138,6 +139,34 @@ def report(ctx, key, what, replay_src, payload):
         ctx.prop = saved
 
 
+def trace_validate(ctx, path, timeout=3000):
+    """vlib.trace_validate for Trace_FastSync, which also reports WHERE the implementation-shaped prediction drifted."""
+    r = vlib.tlc(ctx, "Trace_FastSync.tla", "Trace_FastSync.cfg", workers=1, env={"TRACE_FILE": path}, timeout=timeout, want_exports=False)
+    info = {"states": r.distinct, "wall": r.wall, "drift": 0, "drift_at": [], "broken": []}
+    rejected = None
+    for line in r.out.splitlines():
+        m = re.match(r'<<"DRIFT", (\d+)>>', line)
+        if m:
+            info["drift"] = int(m.group(1))
+        m = re.match(r'<<"DRIFT_AT", <<(.*)>>>>', line)
+        if m and m.group(1).strip():
+            info["drift_at"] = [int(x) for x in m.group(1).split(",")]
+        m = re.match(r'<<"CLAUSE_BROKEN", (\d+), "([^"]*)">>', line)
+        if m:
+            info["broken"].append((int(m.group(1)), m.group(2)))
+        m = re.match(r'<<"TRACE_REJECTED_AT", (\d+), (\d+)>>', line)
+        if m:
+            rejected = int(m.group(1))
+    if r.ok:
+        return True, info
+    if info["broken"]:
+        info["line"], info["clause"] = info["broken"][0]
+        return False, info
+    if rejected is not None:
+        raise vlib.CheckError("Trace_FastSync cannot read line %d of %s (no action matches: harness / spec mismatch, not a verdict):\n%s" % (rejected, path, r.out[-1500:]))
+    raise vlib.CheckError("TLC error while validating a fast-sync trace (not a verdict):\n" + r.out[-3000:])
+
+
 def chunks_of(rows, max_lines=6000):
     """Split a trace at scenario boundaries (one JVM validates a few hundred scenarios)."""
     res, cur = [], []
@@ -165,13 +194,18 @@ def validate(ctx, trace, label):
         trace = ctx.path("filtered_%s.ndjson" % label)
         vlib.write_ndjson(trace, rows)
     all_ok, drift, seen = True, 0, {}
+    drift_notes = []
     offset = 0
     for ci, chunk in enumerate(chunks_of(rows)):
         path = trace if len(chunk) == len(rows) else ctx.path("chunks", "%s_%d.ndjson" % (label, ci))
         if path != trace:
             vlib.write_ndjson(path, chunk)
-        ok, info = vlib.trace_validate(ctx, "Trace_FastSync.tla", "Trace_FastSync.cfg", path, timeout=3000)
+        ok, info = trace_validate(ctx, path)
         drift += info.get("drift") or 0
+        for dl in info.get("drift_at", []):
+            x = rows[offset + dl - 1]
+            st, _ = scenario_of(rows, offset + dl)
+            drift_notes.append("%s step %s of scenario %s (%s)" % (label, x.get("ev"), rows[st].get("scenario"), rows[st].get("class")))
         if not ok:
             all_ok = False
             broken = info.get("broken")
@@ -192,6 +226,8 @@ def validate(ctx, trace, label):
                ex, {"scenario": rows[start].get("scenario"), "class": rows[start].get("class"), "line": line - start})
     if len(seen) > 8:
         ctx.notes.append("%s: %d further violation signatures not listed: %s" % (label, len(seen) - 8, order[8:40]))
+    if drift_notes:
+        ctx.notes.append("conformance drift (implementation-shaped prediction differs, no property clause broken): " + "; ".join(drift_notes[:12]))
     return all_ok, {"drift": drift}, rows
 
 
@@ -262,7 +298,7 @@ def selftest(ctx, trace, mutations, n_lines=150):
     rows = vlib.read_ndjson(trace)[:n_lines]
     good = ctx.path("selftest", "good.ndjson")
     vlib.write_ndjson(good, rows)
-    ok, info = vlib.trace_validate(ctx, "Trace_FastSync.tla", "Trace_FastSync.cfg", good)
+    ok, info = trace_validate(ctx, good)
     if not ok:
         raise vlib.CheckError("binding self-test: the recorded prefix is not accepted: %s" % json.dumps(info)[:600])
     for m in mutations:
@@ -271,7 +307,7 @@ def selftest(ctx, trace, mutations, n_lines=150):
             raise vlib.CheckError("binding self-test %s could not build a corrupted trace" % m.__name__)
         bad = ctx.path("selftest", "bad_%s.ndjson" % m.__name__)
         vlib.write_ndjson(bad, bad_rows)
-        ok, info = vlib.trace_validate(ctx, "Trace_FastSync.tla", "Trace_FastSync.cfg", bad)
+        ok, info = trace_validate(ctx, bad)
         if ok:
             raise vlib.CheckError("binding self-test failed: corrupted trace (%s) was accepted by Trace_FastSync" % m.__name__)
         ctx.log("binding self-test %s: rejected at line %s (%s)" % (m.__name__, info.get("line"), info.get("clause")))
